@@ -155,35 +155,19 @@ theorem lines_join (ls : List Str) (hn : ∀ l ∈ ls, NoNl l) (hlast : ∀ l, l
 
 theorem entryOf_str (k : Str) (ls : List Str) (h : CanonLines ls) :
     printField (k, valueOf ls) = (entryOf k ls).str := by
+  have hs : Text.splitOn '\n' (valueOf ls) = ls :=
+    C06.splitOn_join ls h.ne (fun l hl => (noNl_lineOK (h.noNl l hl)).1)
   obtain ⟨a, rest, rfl⟩ : ∃ a rest, ls = a :: rest := by
     cases ls with
     | nil => exact absurd rfl h.ne
     | cons a rest => exact ⟨a, rest, rfl⟩
-  cases rest with
-  | nil =>
-    -- single line: `Name: value`
-    have hl := lines_single a (noNl_lineOK (h.noNl a (by simp))).1
-    have : ¬ (lines (valueOf [a])).length > 1 := by simpa [valueOf, Text.join] using Nat.not_lt.2 hl
-    simp only [printField, this, ↓reduceIte]
-    simp [valueOf, Text.join, entryOf, EntryS.str, nlText]
-  | cons b rest =>
-    have hlast : ∀ l, (a :: b :: rest).getLast? = some l → l ≠ [] := by
-      intro l hl
-      have hm : l ∈ (a :: b :: rest).tail := by
-        have := List.mem_of_getLast? (l := b :: rest) (by simpa using hl)
-        simpa using this
-      obtain ⟨_, c, cs, hc, _⟩ := h.tailOk l hm
-      rw [hc]; simp
-    have hlines := lines_join (a :: b :: rest) h.noNl hlast (by simp)
-    have : (lines (valueOf (a :: b :: rest))).length > 1 := by
-      rw [valueOf, hlines]; simp
-    simp only [printField, this, ↓reduceIte, valueOf, hlines]
-    simp only [entryOf, EntryS.str, nlText, ContS.str, List.headD_cons, List.tail_cons, List.map_cons,
-      List.flatten_cons, ↓reduceIte, List.map_map]
-    have : (List.map (fun l => ' ' :: (l ++ ['\n'])) rest).flatten =
-        (List.map (ContS.str ∘ fun l => { indent := [' '], text := l, nl := true }) rest).flatten := by
-      congr 1
-    simp [ContS.str, nlText, Function.comp_def]
+  simp only [printField, hs]
+  simp only [entryOf, EntryS.str, nlText, ContS.str, List.headD_cons, List.tail_cons, List.map_cons,
+    List.flatten_cons, ↓reduceIte, List.map_map]
+  have : (List.map (fun l => ' ' :: (l ++ ['\n'])) rest).flatten =
+      (List.map (ContS.str ∘ fun l => { indent := [' '], text := l, nl := true }) rest).flatten := by
+    congr 1
+  simp [ContS.str, nlText, Function.comp_def]
 
 theorem entryOf_wf (k : Str) (ls : List Str) (hk : ValidKey k) (h : CanonLines ls) : (entryOf k ls).WF := by
   refine ⟨hk, ?_, ?_, ?_⟩
@@ -379,10 +363,13 @@ theorem C08_sep (p q : Para) (ps : Doc) :
 
 /-! ### the side conditions cannot be dropped -/
 
-/-- a value ending in a newline prints a blank line, which ends the paragraph -/
-theorem C08_needs_no_trailing_newline :
-    Lossy.read (printDoc [[("A".toList, "a\n".toList)], [("B".toList, "b".toList)]])
-      ≠ .ok [[("A".toList, "a\n".toList)], [("B".toList, "b".toList)]] := by decide +kernel
+/-- an empty line that is not the first one is read back as whitespace-only continuation line
+    by the lossy reader (kept) but dropped by the lossless reader: outside the canonical values,
+    where only the blank-line normalisation of C06 relates the two readers -/
+theorem C08_empty_line_readers_differ :
+    Lossy.read (printDoc [[("A".toList, "a\n\nb".toList)]]) = .ok [[("A".toList, "a\n\nb".toList)]]
+    ∧ (readStrict (printDoc [[("A".toList, "a\n\nb".toList)]])).toOption.map docItems
+        = some [[("A".toList, "a\nb".toList)]] := by decide +kernel
 
 /-- a continuation line starting with a space loses it to the indentation -/
 theorem C08_needs_no_leading_space :
